@@ -159,6 +159,15 @@ static std::vector<Proc> make_procs(bool thorough) {
             auto f = std::make_shared<dl::FftFilter>(hc);
             return Feed([f](const double* in, int n, std::vector<double>& out) { put(out, f->process(mkc(in, n))); });
         });
+        //the mixed overloads of the same class: complex taps fed real frames, real taps fed complex frames
+        add("FftFilter(complex taps, real input)", vh::fmt("nh=%d", nh), 1, 1, [hc] {
+            auto f = std::make_shared<dl::FftFilter>(hc);
+            return Feed([f](const double* in, int n, std::vector<double>& out) { put(out, f->process(mkr(in, n))); });
+        });
+        add("FftFilter(real taps, complex input)", vh::fmt("nh=%d", nh), 2, 1, [h] {
+            auto f = std::make_shared<dl::FftFilter>(h);
+            return Feed([f](const double* in, int n, std::vector<double>& out) { put(out, f->process(mkc(in, n))); });
+        });
     }
     //multirate
     for (int M : std::vector<int>{1, 2, 3, 5, 12}) {
